@@ -255,7 +255,7 @@ NICE_FLOATS = st.one_of(st.sampled_from([0.0, 0.5, -0.5, 60.0, -999.25, 153.0, 1
 
 
 @st.composite
-def entry_block_models(draw, types=None):
+def entry_block_models(draw, types=None, zero_size=False):
     """Ordered list of {'type', 'size', 'rc', 'value'} for a subset of the entry block types (no terminator)."""
     if types is None:
         types = draw(st.lists(st.sampled_from(sorted(EB_LEGAL)), unique=True, max_size=15))
@@ -264,6 +264,10 @@ def entry_block_models(draw, types=None):
     out = []
     for t in types:
         size, rc, vs = EB_LEGAL[t]
+        if zero_size and t != 2 and draw(st.integers(0, 5)) == 0:
+            # a block of size 0 carries no value: it says that the quantity is absent (and overrides any default)
+            out.append({'type': t, 'size': 0, 'rc': rc, 'value': None})
+            continue
         if vs == 'float':
             v = draw(NICE_FLOATS)
         elif vs == 'units':
@@ -279,7 +283,9 @@ def encode_entry_blocks(blocks):
     import struct as _s
     out = bytearray()
     for b in blocks:
-        if b['rc'] == 65:
+        if b['size'] == 0:
+            vb = b''
+        elif b['rc'] == 65:
             vb = b['value']
         elif b['rc'] == 68:
             vb = _s.pack('>I', ref_to68(b['value']))
